@@ -23,6 +23,18 @@ CHECKS = {
              "with returned values), value and globals against HyCore, where ShortCircuit is a checked invariant; "
              "hy.pyops.and_/or_ are compared by value on plain operands.",
         note="Truthiness of the value pool (ints, bools, None, lists, strings) as transcribed in HyCore!Truthy."),
+    "C04": dict(
+        engine="compr", level="model_checking", design="5.1, 6/C04",
+        technique="TLC enumerates comprehension forms of HyCompr with their nested-loop trace (effects and yields) and the "
+                  "variables left behind; every form is rendered as lfor/sfor/gfor/dfor/for in module, function and class "
+                  "scope with either compilation strategy forced, compiled by hy and run, and compared with the trace",
+        text="Clause lists of length <= 3 (thorough 4) over 6 iteration, 4 :if, 4 :setv and :do clauses with final parts "
+             "value / tuple / #* / #** / setx (for: body, break, else); expected elements in order, effect log, values of "
+             "a b z afterwards (no leak of iteration and :setv variables, setx leaks, for leaks everything) and for gfor "
+             "the number of effects visible after each element.",
+        note="Unspecified and skipped: forms without clauses, names read from the enclosing scope and bound later in the "
+             "same form, setx or outer reads inside a comprehension in a class body (Python forbids / hides them), "
+             ":async clauses."),
     "C06": dict(
         engine="core", level="model_checking", design="5.1, 6/C06",
         technique="let/closure programs with every variable read logged, trace-validated by TLC against HyCore's "
